@@ -35,6 +35,8 @@ type Case struct {
 	// ProbeMS >= 0: an additional request this many ms after the advertised availability time, abandoned as soon as the first
 	// bytes arrive: it must be admitted (200), not refused as too early. -1 = none.
 	ProbeMS int64 `json:"probe_ms"`
+	// ChunkdurFirst: chunkdur_ is written before ato_ in the URL (the order of options is free)
+	ChunkdurFirst bool `json:"chunkdur_first,omitempty"`
 }
 
 // recWriter records when each chunk is flushed.
@@ -130,6 +132,7 @@ func genCase(t *rapid.T, paced bool) (Case, *env.Env) {
 	if e.Asset.Reps[c.RepID].ContentType == "audio" && !strings.HasPrefix(rep.Codecs, "mp4a") {
 		c.DRM = ""
 	}
+	c.ChunkdurFirst = rapid.IntRange(0, 2).Draw(t, "chunkdur-first") == 0
 	tl := refmodel.NewTimeline(e.Asset, rep, cfg)
 	c.ProbeMS = -1
 	if !paced && cfg.AtoMS > 1 {
@@ -186,6 +189,9 @@ func checkCase(c Case, e *env.Env) (*hx.Violation, info) {
 	tl := refmodel.NewTimeline(e.Asset, rep, c.Cfg)
 	ts := tl.TS()
 	parts := append(c.Cfg.Parts(), "chunkdur_"+c.ChunkDur)
+	if c.ChunkdurFirst {
+		parts = append([]string{"chunkdur_" + c.ChunkDur}, c.Cfg.Parts()...)
+	}
 	wholeParts := c.Cfg.Parts()
 	if c.DRM != "" {
 		parts = append(parts, c.DRM)
@@ -362,6 +368,9 @@ func TestC09(t *testing.T) {
 		}
 		if inf.probed {
 			cls = append(cls, "probed-at-availability")
+		}
+		if c.ChunkdurFirst {
+			cls = append(cls, "chunkdur-before-ato")
 		}
 		if c.DRM != "" {
 			cls = append(cls, "drm")
